@@ -24,11 +24,15 @@ import (
 //   pub:<ver>:<qos>:<retain>:<b1,b2,b3>     OnPublish behaviour per hook:
 //        pass | tag (append "+i" to the payload it received) | top (append "/r<i>" to the topic it
 //        received) | reject (packets.ErrRejectPacket) | ignore (packets.CodeSuccessIgnore) |
+//        flag (marks the publish as ignored through the packet: sets Ignore on the packet it
+//        returns, nil error; the chain goes on) |
 //        code (packets.ErrPayloadFormatInvalid, a reason code >= 0x80) | plain (errors.New)
 //     history: s subscribes '#' QoS2, p (protocol <ver>) publishes x/"m" at <qos> (PUBREL sent if a
 //     successful PUBREC arrives), then t subscribes '#' (retained replay).
 //     model: walk the stack in registration order; the first non-pass result that is an error ends
-//     the chain: the message must be neither delivered nor retained. Otherwise s must receive exactly
+//     the chain: the message must be neither delivered nor retained; the same holds when no hook
+//     ended the chain but some hook marked the packet as ignored (flag), whatever the later hooks
+//     (which see the marked packet) modify. Otherwise s must receive exactly
 //     one message whose payload/topic are the composition of all modifications in registration order.
 //   read:<ver>:<kind>:<b1,b2,b3>            OnPacketRead behaviour per hook for packet <kind> in
 //        {pub,sub,con}: pass | mod (pub: append "+i" to payload; sub: append "/i" to the filter) |
@@ -84,6 +88,8 @@ func (h *c19Hook) OnPublish(cl *mqtt.Client, pk packets.Packet) (packets.Packet,
 		pk.Payload = append(append([]byte{}, pk.Payload...), []byte(fmt.Sprintf("+%d", h.n))...)
 	case "top":
 		pk.TopicName += fmt.Sprintf("/r%d", h.n)
+	case "flag":
+		pk.Ignore = true
 	case "reject":
 		return pk, packets.ErrRejectPacket
 	case "ignore":
@@ -179,7 +185,7 @@ func c19Cases(arg string) []string {
 	}
 	fam := func(f string) bool { return strings.Contains(arg, f) || strings.Contains(arg, "all") }
 	if fam("pub") {
-		for _, st := range c19Stacks([]string{"pass", "tag", "top", "reject", "ignore", "code", "plain"}, max) {
+		for _, st := range c19Stacks([]string{"pass", "tag", "top", "reject", "ignore", "flag", "code", "plain"}, max) {
 			for _, v := range vers {
 				for _, q := range []string{"0", "1", "2"} {
 					for _, r := range []string{"0", "1"} {
@@ -288,19 +294,29 @@ func c19Run(arg string) explore.HistFn {
 				}
 			}
 			// model
-			wantPayload, wantTopic, failed := "m", "x", ""
+			wantPayload, wantTopic, failed, flagged := "m", "x", "", false
 			for i, b := range beh {
 				switch b {
 				case "tag":
 					wantPayload += fmt.Sprintf("+%d", i+1)
 				case "top":
 					wantTopic += fmt.Sprintf("/r%d", i+1)
+				case "flag":
+					flagged = true
 				case "reject", "ignore", "code", "plain":
 					failed = b
 				}
 				if failed != "" {
 					break
 				}
+			}
+			if failed == "" && flagged {
+				// no hook ended the chain with an error, but one marked the packet as ignored
+				failed = "ignore-flag"
+				if wantPayload != "m" || wantTopic != "x" {
+					failed = "ignore-flag-and-modified"
+				}
+				counters["publish-ignored-through-packet-flag"]++
 			}
 			var expCalls []string
 			for i, b := range beh {
